@@ -45,6 +45,9 @@ enum Ev {
     Connect(usize),
     /// Transport of peer closed: service-level `disconnected`.
     Disconnect(usize),
+    /// A crossing connection of the other direction lost the conflict resolution: the wire reports
+    /// `disconnected(peer, <other link>, Conflict)` while the established session stays up.
+    CrossDisconnect(usize),
     FetchCmd(usize, usize), // repo, peer
     RefsAnn(usize, usize),  // repo, announcing peer (connected)
     /// Worker result for the k-th outstanding token (in emission order).
@@ -232,6 +235,9 @@ impl System for Sys {
                 v.push(Ev::Connect(p));
             } else {
                 v.push(Ev::Disconnect(p));
+                if self.wire.contains(&p) {
+                    v.push(Ev::CrossDisconnect(p));
+                }
             }
         }
         for r in 0..self.cfg.repos {
@@ -253,7 +259,7 @@ impl System for Sys {
 
     fn is_deviation(&self, ev: &Ev) -> bool {
         match ev {
-            Ev::Disconnect(_) => true,
+            Ev::Disconnect(_) | Ev::CrossDisconnect(_) => true,
             Ev::Result(k, _) => !self.tokens[*k].live,
             Ev::FetchCmd(_, p) => !self.wire.contains(p),
             _ => false,
@@ -288,6 +294,14 @@ impl System for Sys {
                 let ios = svc::disconnect_inbound(&mut self.svc, &peer);
                 self.absorb(ios, &mut labels, &mut vs);
                 labels.push("disconnected".into());
+            }
+            Ev::CrossDisconnect(p) => {
+                // The established (inbound) session is untouched at wire level.
+                let peer = self.peers[*p].clone();
+                self.svc.disconnected(peer.id, Link::Outbound, &service::DisconnectReason::Conflict);
+                let ios = svc::drain(&mut self.svc);
+                self.absorb(ios, &mut labels, &mut vs);
+                labels.push("cross-disconnect".into());
             }
             Ev::FetchCmd(r, p) => {
                 let (tx, rx) = chan::unbounded();
